@@ -1,2 +1,3 @@
 pub mod alphabet;
 pub mod seeds;
+pub mod recipe;
